@@ -7,6 +7,7 @@ from fractions import Fraction
 
 import z3
 
+from symx import ext_c05 as X
 from symx import fp
 from symx.core import PathAbort, assume, cur, explore, integer, mval, rv, solve
 from symx.dtmodel import SDateTime, STimeDelta
@@ -20,25 +21,43 @@ TECHNIQUE = ("the real datetimeToJulianDate / JulianDate.getJulianDate / getCale
              "rn(exact result), elided when grid and magnitude show exactness) with JulianDate/ScenarioTime re-based onto the proxy and datetime/timedelta replaced by an "
              "integer calendar model; universal claims are proved in the relaxed rounding encoding (|r - e| <= half an ulp: a sound over-approximation of every double "
              "execution), counterexample candidates are replayed on the real code and, when a candidate does not replay, re-derived in the bit-exact encoding "
-             "(relational round-to-nearest-even) for the candidate's calendar day")
+             "(relational round-to-nearest-even) for the candidate's calendar day; the entry point resonaate.runResonaate is executed as its own code object with a private "
+             "__builtins__ (its function-local `from datetime import timedelta` delivers a model of CPython's timedelta(float) constructor: exact integer microseconds, one rounded "
+             "double product, ties to an even total) on sim_time_hours = rn(n/q), n a solver integer, and drives the real getTargetJulianDate and Scenario.propagateTo")
 FLOAT_SEMANTICS = "IEEE-754 double: relaxed (sound over-approximation) for proofs, exact relational round-to-nearest-even for counterexamples"
 ENCODED = ["resonaate.physics.time.stardate:datetimeToJulianDate", "resonaate.physics.time.stardate:JulianDate.getJulianDate", "resonaate.physics.time.stardate:getCalendarDate",
            "resonaate.physics.time.stardate:days2mdh", "resonaate.physics.time.stardate:julianDateToDatetime", "resonaate.physics.time.stardate:JulianDate.convertToScenarioTime",
            "resonaate.physics.time.stardate:ScenarioTime.convertToJulianDate", "resonaate.physics.time.conversions:getTargetJulianDate",
-           "resonaate.scenario.scenario:Scenario.propagateTo", "resonaate.scenario.clock:ScenarioClock.ticToc"]
+           "resonaate.scenario.scenario:Scenario.propagateTo", "resonaate.scenario.clock:ScenarioClock.ticToc", "resonaate:runResonaate"]
 BOUNDS = {"instants": "every whole second 1901-01-01 .. 2099-12-31 (year = 1901 + 4a + b: a symbolic 0..49, b and the month enumerated = 48 classes; quick tier: 16 classes, see obligations)",
           "scenario time": "0 .. 30 days, whole seconds", "duration D": "dt .. 30 days whole seconds", "dt": "quick {1, 60, 300, 3080}; thorough adds {2, 7, 45, 86400}",
-          "loop unrolling": "propagateTo loop run for 1..3 steps; the step count itself is proved for every D"}
-OUTSIDE = ["sub-second (microsecond) instants, leap seconds", "years outside 1901..2099", "fractional dt", "the storage of Julian dates in SQLite (C09)"]
+          "loop unrolling": "propagateTo loop run for 1..3 steps; the step count itself is proved for every D",
+          "sim_time_hours": "the double nearest to n/q (what float() makes of the typed text), every n with n/q <= 720 h (30 days): quick q in {100, 3600} with dt in {60, 180} resp. {1, 300}; "
+                            "thorough adds q in {1, 4, 10, 60, 1000} and further dt; start instant: any whole second 1901-01-01 .. 2099-11-30"}
+OUTSIDE = ["sub-second (microsecond) instants, leap seconds", "years outside 1901..2099", "fractional dt", "the storage of Julian dates in SQLite (C09)",
+           "sim_time_hours that is not the double nearest to a decimal/rational n/q of the listed families (for an arbitrary double H the 'intended' duration within half a microsecond of a whole "
+           "second is not defined by the property), negative or zero hours, hours beyond 30 days",
+           "runResonaate: the construction of the Scenario from the init file (buildScenarioFromConfigFile is replaced by a bare real Scenario with a real clock), debug_mode, KeyboardInterrupt handling",
+           "the microsecond field of (start + timedelta) - getTargetJulianDate reads the six whole fields only"]
 ASSUMPTIONS = ["datetime/timedelta -> integer calendar model (symx.dtmodel; 4-year cycle, valid 1901..2099), validated against the real datetime in obligation dtmodel",
                "relaxed rounding |r - e| <= 2^(bmax-53) per operation (over-approximation); exact rounding as q*2^(b-52) with tie-to-even",
                "getTargetJulianDate is checked with julianDateToDatetime replaced by a provider of an arbitrary instant (its correctness is the round-trip obligation)",
                "propagateTo: stepForward replaced by a stub that ticks the real clock; range() records the requested count; logger stubbed",
-               "step-count: jd_target - jd_start = D/86400 within 2^-30 days, which is what the jd-accuracy obligations prove for both dates"]
+               "step-count: jd_target - jd_start = D/86400 within 2^-30 days, which is what the jd-accuracy obligations prove for both dates",
+               "run-hours: timedelta -> symx.ext_c05.TimeDeltaUS, a model of CPython's C constructor for float arguments (delta_new/accum), validated against the real constructor in obligation tdmodel",
+               "run-hours: runResonaate's own code object is run with a private __builtins__ (symx.ext_c05.rebuilt): __import__ delivers the datetime model (and a math shim), int/float/round are the fp versions; "
+               "every other import of the body is the real one; buildScenarioFromConfigFile is shadowed by a provider of a bare real Scenario (real ScenarioClock at time 0, stepForward/shutdown/logger stubbed)",
+               "run-hours: the clock's start date is any double within 2^-31 d of the exact Julian date of the start instant t0 and julianDateToDatetime(start date) is replaced by a provider of t0 (both are what "
+               "roundtrip-* proves); JulianDate.getJulianDate called by getTargetJulianDate is replaced by its accuracy contract (result within 2^-31 d of the exact Julian date of the instant with those six "
+               "fields; fields that are not the six fields of one model instant are recomposed through the calendar model)",
+               "run-hours: range() in propagateTo records the requested count and returns an empty range (the loop itself is the loop-* obligations)",
+               "run-hours counterexamples: relaxed candidates are replayed on the real runResonaate; if none reproduces, the hours -> target-instant part is searched in the bit-exact encoding, binade by binade of H "
+               "(inside the timedelta model the one product spanning more than 64 binades stays in the relaxed encoding)"]
 LEVEL_TEXT = ("Bounded symbolic verification in IEEE double semantics: for every whole-second instant of 1901-2099 the Julian-date round trip, the accuracy of the Julian date "
               "(hence strict monotonicity), the scenario-second round trip and the step count of a timed run are decided by z3 over all instants/durations, not sampled ones; "
               "failing instants are rare-looking but systematic (rounding direction), which is what sampling misses.")
-LEVEL_NOTE = "Whole seconds; relaxed rounding for the universal direction (sound), exact rounding for counterexamples; calendar model trusted and validated; loop unrolled to 3 steps."
+LEVEL_NOTE = ("Whole seconds; relaxed rounding for the universal direction (sound), exact rounding for counterexamples; calendar and timedelta models trusted and validated; loop unrolled to 3 steps; "
+              "requested hours of the form n/q.")
 
 JD_1901 = Fraction(4830771, 2)  # Julian date of 1901-01-01 00:00:00 = 2415385.5
 DIM = [31, 28, 31, 30, 31, 30, 31, 31, 30, 31, 30, 31]
@@ -255,11 +274,37 @@ def o_target_date(rep):
             continue
         js, seen, out, want = r.out
         n += 1
-        rep.prove(f"target-date#{k}", z3.And(out.t == want.t, z3.BoolVal(len(seen) == 1), seen[0].t == js.t if seen else z3.BoolVal(False)), r.constraints, timeout_ms=120000,
-                  inputs=lambda m: {"n0": mval(m, z3.Int("n0")), "sod0": mval(m, z3.Int("sod0")), "D": mval(m, z3.Int("D"))}, replay=replay_target_date,
-                  sample="getTargetJulianDate(jd, D) is the Julian date of (calendar instant of jd) + D, computed from all six fields")
+        goal = z3.And(out.t == want.t, z3.BoolVal(len(seen) == 1), seen[0].t == js.t if seen else z3.BoolVal(False))
+        inputs = lambda m: {"n0": mval(m, z3.Int("n0")), "sod0": mval(m, z3.Int("sod0")), "D": mval(m, z3.Int("D"))}  # noqa: E731
+        v = solve(list(r.constraints) + [z3.Not(goal)], 120000)
+        rep._item(f"target-date#{k}", "prove", v)
+        rep.sample({"obligation": f"target-date#{k}", "verdict": v.status, "what": "getTargetJulianDate(jd, D) is the Julian date of (calendar instant of jd) + D, computed from all six fields"})
+        if v.status == "unknown":
+            rep.undecided(f"target-date#{k}", v.reason)
+        elif v.status == "sat":
+            # the two dates are not the same term any more; in the relaxed encoding that alone is satisfiable (two roundings), so
+            # ask for a difference no rounding explains (half a second), or a start date that is not passed through
+            half = rv(Fraction(1, 2 * 86400))
+            big = z3.Or(out.t - want.t >= half, want.t - out.t >= half, z3.BoolVal(len(seen) != 1), z3.Not(seen[0].t == js.t) if seen else z3.BoolVal(True))
+            v2 = solve(list(r.constraints) + [big], 120000)
+            rep._item(f"target-date#{k}:half-second", "prove", v2)
+            if v2.status == "sat":
+                cand = inputs(v2.model)
+                reproduced, detail = replay_target_date(cand)
+                rep.items[-1]["counterexample"], rep.items[-1]["replay"] = cand, {"reproduced": reproduced, "detail": detail}
+                if reproduced:
+                    rep.concrete_violation(f"target-date#{k}", cand, detail)
+                else:
+                    rep.error(f"target-date#{k}", f"counterexample does not reproduce on the real code: {detail}")
+            else:
+                rep.undecided(f"target-date#{k}", f"the target date is no longer the same expression as datetimeToJulianDate(start + D) and a half-second difference is {v2.status}")
     if not n:
         rep.error("reach", "no path")
+
+
+# names shadowed in the scenario/clock modules while propagateTo / ticToc run on symbolic doubles
+SC_ENV = [("resonaate.scenario.scenario", {"around": fp.fp_around, "int": fp.fp_int, "float": fp.fp_float, "round": fp.fp_round}),
+          ("resonaate.scenario.clock", {"int": fp.fp_int, "float": fp.fp_float, "round": fp.fp_round})]
 
 
 class _Stop(Exception):
@@ -330,7 +375,7 @@ def o_step_count(rep, dt):
     from resonaate.scenario import scenario as SC
 
     def run():
-        with time_env([("resonaate.scenario.scenario", {"around": fp.fp_around, "int": fp.fp_int}), ("resonaate.scenario.clock", {})]) as ns:
+        with time_env(SC_ENV) as ns:
             js = ns.JulianDate(fp.fresh_float("js", Fraction(4830041, 2), Fraction(4976837, 2), -31))
             jt = ns.JulianDate(fp.fresh_float("jt", Fraction(4830041, 2), Fraction(4976837 + 62, 2), -31))
             dd, kk = integer("D"), integer("k0")
@@ -388,7 +433,7 @@ def o_step_count(rep, dt):
 def o_loop(rep, dt, out_step):
     """The loop itself, unrolled: n steps tick the clock to t_now + n*dt; output exactly at multiples of output_step."""
     def run():
-        with time_env([("resonaate.scenario.scenario", {"around": fp.fp_around, "int": fp.fp_int}), ("resonaate.scenario.clock", {})]) as ns:
+        with time_env(SC_ENV) as ns:
             js = ns.JulianDate(fp.fresh_float("js", Fraction(4830041, 2), Fraction(4976837, 2), -31))
             jt = ns.JulianDate(fp.fresh_float("jt", Fraction(4830041, 2), Fraction(4976837 + 62, 2), -31))
             dd, kk = integer("D"), integer("k0")
@@ -475,10 +520,242 @@ def o_dtmodel(rep):
             rep.prove(f"pin{i}-{md}", z3.And(*goals), r.constraints, sample="pinned instant: model day number / fields and the encoded Julian date equal CPython's (bit-equal in exact mode)")
 
 
+# ---------------------------------------------------------------------------------------------
+# the entry point: runResonaate(init, sim_time_hours=H) from any start instant
+def _hours_run(q, nmax, dt, drive):
+    """Execute the real runResonaate on H = rn(n / q) hours (n a solver integer: H is the double the command line's float() makes of
+    the typed text n/q).  drive=True: the application is a bare real Scenario with a real clock whose real propagateTo runs
+    (range() records the requested number of steps); drive=False: propagateTo only records its argument."""
+    import resonaate
+    import resonaate.scenario as RS
+    from resonaate.scenario import scenario as SC
+
+    def run():
+        with time_env(SC_ENV) as ns:
+            n, tot0 = integer("n"), integer("tot0")
+            assume(n.t >= 1, n.t <= nmax, tot0.t >= 0, tot0.t < (72683 - 31) * 86400)
+            hours = fp.rn(z3.ToReal(n.t) / q, Fraction(1, q), Fraction(nmax, q))
+            t0 = X.TrackedDT.of_total(tot0.t)  # the start instant: any whole second 1901 .. 2099-11-30
+            log = {"targets": [], "seen": [], "built": [], "shutdown": 0, "count": None}
+            JDc = X.jd_contract(ns.JulianDate, on_call=lambda jd, tot: log["targets"].append((jd, tot)))
+            # the start date of the clock: the Julian date of t0 (accuracy as proved by roundtrip-*: jd-accuracy)
+            js = JDc(fp.fresh_float("js", Fraction(4830041, 2), Fraction(4976837, 2), -31))
+            exact0 = rv(JD_1901) + z3.ToReal(tot0.t) / 86400
+            assume(js.t - exact0 <= rv(Fraction(1, 2 ** 31)), exact0 - js.t <= rv(Fraction(1, 2 ** 31)))
+            sc, slog = _scenario(ns, dt, dt, fp.SFloat(0), js, False)
+            sc.shutdown = lambda *a, **k: log.__setitem__("shutdown", log["shutdown"] + 1)
+            if not drive:
+                sc.propagateTo = lambda target: log.__setitem__("count", "recorded")
+
+            def provider(jd):  # julianDateToDatetime(start date) = t0: the roundtrip obligation
+                log["seen"].append(jd)
+                return t0
+
+            def builder(*a, **k):
+                log["built"].append((a, k))
+                return sc
+
+            def rng(k):
+                log["count"] = k
+                return range(0)
+
+            entry = X.rebuilt(resonaate.runResonaate, modules={"datetime": X.DatetimeModuleUS, "math": X.MathShim()}, names={"int": fp.fp_int, "float": fp.fp_float, "round": fp.fp_round})
+            raised = None
+            with shadow(ns.conversions, julianDateToDatetime=provider, JulianDate=JDc), shadow(RS, buildScenarioFromConfigFile=builder), shadow(SC, range=rng):
+                try:
+                    entry("init.json", sim_time_hours=hours)
+                except ValueError as e:
+                    raised = e
+        return n, tot0, js, log, raised
+
+    return run
+
+
+def replay_run_hours(d):
+    """The real runResonaate (scenario builder patched as tests/test_run_resonaate.py does, but returning a bare real Scenario with a
+    real ScenarioClock started at the given instant); counts the stepForward() calls."""
+    import resonaate
+    import resonaate.scenario as RS
+    from resonaate.physics.time.stardate import ScenarioTime, datetimeToJulianDate
+    from resonaate.scenario.clock import ScenarioClock
+    from resonaate.scenario.scenario import Scenario
+
+    n, q, dt = int(d["hours_num"]), int(d["hours_den"]), int(d["dt"])
+    hours = n / q  # == float("<n/q as typed>"): both are the double nearest to the rational
+    t0 = _dt.datetime(1901, 1, 1) + _dt.timedelta(seconds=int(d["start_s"]))
+    clock = object.__new__(ScenarioClock)
+    clock.datetime_start = t0
+    clock.julian_date_start = datetimeToJulianDate(t0)
+    clock.dt_step, clock.time, clock.initial_time = ScenarioTime(dt), ScenarioTime(0), ScenarioTime(0)
+    sc = object.__new__(Scenario)
+    sc.clock = clock
+    sc.logger = types.SimpleNamespace(info=lambda *a, **k: None, error=lambda *a, **k: None, warning=lambda *a, **k: None, debug=lambda *a, **k: None)
+    sc.scenario_config = types.SimpleNamespace(propagation=types.SimpleNamespace(truth_simulation_only=True), time=types.SimpleNamespace(physics_step_sec=dt, output_step_sec=dt))
+    steps, epochs, downs = [0], [], [0]
+
+    def step():
+        steps[0] += 1
+        clock.ticToc()
+        epochs.append(float(clock.time))
+
+    sc.stepForward, sc.saveDatabaseOutput = step, lambda: None
+    sc.shutdown = lambda *a, **k: downs.__setitem__(0, downs[0] + 1)
+    raised = None
+    with shadow(RS, buildScenarioFromConfigFile=lambda *a, **k: sc):
+        try:
+            resonaate.runResonaate("replay.json", sim_time_hours=hours)
+        except ValueError as e:
+            raised = repr(e)
+    want = (3600 * n) // (q * dt)
+    bad = steps[0] != want or (raised is not None and want >= 1) or epochs != [float((k + 1) * dt) for k in range(want)]
+    return bad, {"start": t0.isoformat(), "sim_time_hours": hours, "typed": f"{n}/{q}", "requested_duration_s": float(Fraction(3600 * n, q)), "step_s": dt, "steps_made": steps[0],
+                 "steps_expected": want, "last_epoch_s": epochs[-1] if epochs else 0.0, "raised": raised}
+
+
+def _hours_inputs(q, dt):
+    return lambda m: {"hours_num": mval(m, z3.Int("n")), "hours_den": q, "dt": dt, "start_s": mval(m, z3.Int("tot0"))}
+
+
+def o_run_hours(rep, q, nmax, dt):
+    """runResonaate(sim_time_hours = n/q) advances exactly floor(D/dt) steps, D = 3600 n / q seconds (what timedelta(hours=...) makes of it)."""
+    import math
+
+    import resonaate.common.behavioral_config  # noqa: F401  (PRELOAD: imported inside runResonaate)
+    import resonaate.scenario  # noqa: F401
+    from resonaate.scenario import clock as _ck  # noqa: F401
+    from resonaate.scenario import scenario as _sc  # noqa: F401
+
+    tag = f"[H=n/{q},dt={dt}]"
+    what = "the number of steps runResonaate requests is floor(D/dt), D = 3600 n/q s, for every n and every start second; ValueError only when D < dt"
+    with fp.mode("relaxed"):
+        res = explore(_hours_run(q, nmax, dt, True), max_paths=16, branch_timeout_ms=20000, catch=(Exception,))
+    want_n = lambda n: (3600 * n.t) / (q * dt)  # noqa: E731  (Int division = floor)
+    secs = lambda n: (3600 * n.t) / q  # noqa: E731
+    kinds, cands = set(), []
+    for k, r in enumerate(res):
+        if r.exc is not None:
+            rep.error(f"exception{tag}#{k}", repr(r.exc))
+            continue
+        n, tot0, js, log, raised = r.out
+        shape = z3.BoolVal(len(log["built"]) == 1 and len(log["seen"]) == 1 and len(log["targets"]) == 1 and log["shutdown"] == 1 and (raised is not None or log["count"] is not None))
+        if raised is not None:
+            kinds.add("raise")
+            goal = z3.And(shape, want_n(n) == 0)
+        else:
+            kinds.add("count")
+            c = log["count"]
+            ct = c.as_int_term() if isinstance(c, fp.SFloat) else z3.IntVal(int(c))
+            goal = z3.And(shape, ct == want_n(n), want_n(n) >= 1)
+        cons = list(r.constraints)
+        rep.reachable(f"path{tag}#{k}", cons)
+        # lemma chain (each proved from the path before it is used): the requested target instant, then the rounded delta
+        lemmas = [("target-instant", tot == tot0.t + secs(n)) for _jd, tot in log["targets"]]
+        lemmas += [("start-date-passed", z3.And(*[s_.t == js.t for s_ in log["seen"]]))]
+        lemmas += [(f"rounded-delta#{i}", n_ == secs(n)) for i, (key, n_) in enumerate(r.path.trig.items()) if key[0] == "rhe"]
+        for lname, lem in lemmas:
+            lv = solve(cons + [z3.Not(lem)], 20000)
+            rep._item(f"run-hours{tag}#{k}:lemma:{lname}", "lemma", lv)
+            if lv.status == "unsat":
+                cons.append(lem)
+        v = solve(cons + [z3.Not(goal)], 120000)
+        rep._item(f"run-hours{tag}#{k}", "prove", v)
+        rep.sample({"obligation": f"run-hours{tag}", "verdict": v.status, "what": what})
+        if v.status == "unknown":
+            rep.undecided(f"run-hours{tag}#{k}", v.reason)
+        elif v.status == "sat":
+            cands.append((k, _hours_inputs(q, dt)(v.model)))
+    need = {"count"} | ({"raise"} if (3600 // q) < dt else set())
+    if not cands and not need <= kinds:
+        rep.error(f"reach{tag}", f"expected outcomes {need}, got {kinds}")
+    if not cands:
+        return
+    # relaxed-rounding candidates: replay; one that reproduces is a violation
+    for k, cand in cands:
+        reproduced, detail = replay_run_hours(cand)
+        rep.items[-1].setdefault("candidates", []).append({"inputs": cand, "reproduced": reproduced})
+        if reproduced:
+            rep.concrete_violation(f"run-hours{tag}#{k}", cand, detail)
+            return
+    # none reproduced: the relaxed encoding cannot tell on which side of a whole second a double product falls.  Decide the
+    # hours -> target-instant part in the bit-exact encoding (binade by binade of H), asking for a different step count.
+    with fp.mode("exact"):
+        res2 = explore(_hours_run(q, nmax, dt, False), max_paths=16, branch_timeout_ms=20000, catch=(Exception,))
+    verdicts = []
+    for k, r in enumerate(res2):
+        if r.exc is not None:
+            rep.error(f"exception-exact{tag}#{k}", repr(r.exc))
+            return
+        n, tot0, js, log, raised = r.out
+        if len(log["targets"]) != 1:
+            rep.error(f"exact{tag}#{k}", f"{len(log['targets'])} target dates requested")
+            return
+        bad = (log["targets"][0][1] - tot0.t) / dt != want_n(n)
+        cons = fp.sliced(r.path, bad)
+        for b in range(math.floor(math.log2(1 / q)) - 1, math.floor(math.log2(nmax / q)) + 2):
+            lo, hi = Fraction(2) ** b * q, Fraction(2) ** (b + 1) * q
+            if hi <= 1 or lo > nmax:
+                continue
+            v = solve(cons + [z3.ToReal(n.t) >= rv(lo), z3.ToReal(n.t) < rv(hi), bad], 60000)
+            rep._item(f"run-hours{tag}:exact#{k}:binade{b}", "prove", v)
+            verdicts.append(v.status)
+            if v.status == "sat":
+                cand = _hours_inputs(q, dt)(v.model)
+                reproduced, detail = replay_run_hours(cand)
+                rep.items[-1]["counterexample"] = cand
+                rep.items[-1]["replay"] = {"reproduced": reproduced, "detail": detail}
+                if reproduced:
+                    rep.concrete_violation(f"run-hours{tag}:exact", cand, detail)
+                else:
+                    rep.error(f"run-hours{tag}:exact", f"bit-exact counterexample does not reproduce: {detail}")
+                return
+    rep.undecided(f"run-hours{tag}", f"relaxed candidates {[c for _k, c in cands]} do not reproduce and the bit-exact search of the duration conversion found nothing ({verdicts})")
+
+
+def o_tdmodel(rep):
+    """Differential validation of the timedelta(float) model (symx.ext_c05.TimeDeltaUS) against CPython's constructor: the hours value is
+    a solver variable pinned by an assumption; the model's microseconds must equal the real ones (both rounding encodings)."""
+    pins = [(205, 100), (113, 100), (29, 100), (2399, 100), (50, 100), (71999, 100), (1, 3600), (86399, 3600), (7, 1), (1, 3), (123457, 1000)]
+    for i, (a, q) in enumerate(pins):
+        real_us = X.real_total_us(_dt.timedelta(hours=a / q))
+        for md in ("exact", "relaxed"):
+            def run(a=a, q=q):
+                n = integer("n")
+                assume(n.t == a)
+                h = fp.rn(z3.ToReal(n.t) / q, Fraction(a, q) / 2, Fraction(a, q) * 2)
+                return X.TimeDeltaUS(hours=h)
+
+            with fp.mode(md):
+                res = explore(run, max_paths=4)
+            for k, r in enumerate(res):
+                if r.exc is not None:
+                    rep.error(f"pin{i}-{md}", repr(r.exc))
+                    continue
+                td = r.out
+                rep.reachable(f"td-pin{i}-{md}-sat#{k}", r.constraints)
+                rep.prove(f"td-pin{i}-{md}#{k}", z3.And(td.us == real_us, td.s == real_us // 10 ** 6), r.constraints,
+                          sample="timedelta(hours=h) model: total microseconds equal CPython's for the pinned h (h a constrained solver variable)")
+    # constant arguments of several units, including exact ties (1/2048 h = 1757812.5 us) with an odd and an even running total
+    cases = [dict(hours=1 / 2048), dict(hours=3 / 2048), dict(hours=2049 / 2048), dict(microseconds=1, hours=1 / 2048), dict(microseconds=1, hours=3 / 2048), dict(minutes=0.1, seconds=0.7, hours=2.05),
+             dict(days=0.3, weeks=0.01), dict(seconds=7380), dict(seconds=1e-7), dict(milliseconds=0.0005), dict(seconds=2.5, milliseconds=1.5)]
+    for i, kw in enumerate(cases):
+        real_us = X.real_total_us(_dt.timedelta(**kw))
+        with fp.mode("exact"):
+            res = explore(lambda kw=kw: X.TimeDeltaUS(**kw), max_paths=4)
+        for k, r in enumerate(res):
+            if r.exc is not None:
+                rep.error(f"const{i}", repr(r.exc))
+                continue
+            rep.reachable(f"td-const{i}-sat#{k}", r.constraints)
+            rep.prove(f"td-const{i}#{k}", r.out.us == real_us, r.constraints, sample="timedelta(**floats) model equals CPython's constructor (ties to an even total)")
+
+
 REPLAYS = {}
 
 QUICK_CLASSES = [(b, m) for b in range(4) for m in (1, 2, 3, 12)]
 ALL_CLASSES = [(b, m) for b in range(4) for m in range(1, 13)]
+# (q, largest n, dt): sim_time_hours = n/q for n = 1..nmax (up to 30 days)
+RUN_HOURS_QUICK = [(100, 72000, 60), (100, 72000, 180), (3600, 30 * 86400, 1), (3600, 30 * 86400, 300)]
+RUN_HOURS_ALL = RUN_HOURS_QUICK + [(100, 72000, 1), (100, 72000, 3080), (10, 7200, 60), (1000, 720000, 7), (60, 43200, 60), (4, 2880, 300), (1, 720, 3600), (3600, 30 * 86400, 45)]
 
 
 def obligations(tier):
@@ -497,4 +774,12 @@ def obligations(tier):
         REPLAYS[f"step-count-dt{dt}"] = replay_count
     for dt, out in ((60, 60), (60, 300), (300, 300)) if tier == "quick" else ((60, 60), (60, 300), (300, 300), (1, 60), (3080, 3080), (45, 90)):
         obs.append(Ob(f"loop-dt{dt}-out{out}", (lambda dt, out: lambda rep: o_loop(rep, dt, out))(dt, out), f"timed run: loop unrolled, dt={dt}, output step={out}", 600))
+    obs.append(Ob("tdmodel", o_tdmodel, "timedelta(float hours) model agrees with CPython's constructor on pinned values", 300))
+    for q, nmax, dt in (RUN_HOURS_QUICK if tier == "quick" else RUN_HOURS_ALL):
+        name = f"run-hours-q{q}-dt{dt}"
+        obs.append(Ob(name, (lambda q, nmax, dt: lambda rep: o_run_hours(rep, q, nmax, dt))(q, nmax, dt), f"runResonaate(sim_time_hours = n/{q}) makes floor(D/dt) steps, dt={dt}", 900))
+        REPLAYS[name] = replay_run_hours
     return obs
+
+
+obligations("thorough")  # fills REPLAYS for `--replay` (which does not build the obligation list)
